@@ -256,6 +256,7 @@ func c06HandZoo(nilIface any, nilErr *zooErr, pi *int, ppi **int, psv *string, s
 		{"float32 NaN", float32(math.NaN())}, {"int8", int8(-1)}, {"uint", uint(1)}, {"uintptr", uintptr(1)},
 		{"json.Number", json.Number("1")}, {"json.Number bad", json.Number("x")}, {"complex", complex(1, 2)}, {"rune", 'x'},
 		{"namedStr", zooNamedStr("x")}, {"namedInt", zooNamedInt(3)},
+		{"[]string of one blank", []string{""}}, {"[]string of blanks", []string{"", " ", "\t"}}, {"[]any of blanks", []any{"", " "}}, {"[]string blank then value", []string{"", "on"}},
 		{"namedStr empty", zooNamedStr("")}, {"namedStr spaces", zooNamedStr("  ")}, {"stringer returning the empty string", zooStringer{new(string)}},
 		{"error with an empty message", errors.New("")}, {"[]byte{}", []byte{}}, {"namedInt zero", zooNamedInt(0)}, {"*string to empty", new(string)},
 		{"empty string", ""}, {"spaces", " \t\n"}, {"invalid utf8", "\xff\xfe\xfd"}, {"NUL", "\x00"}, {"64KiB string", big},
